@@ -94,12 +94,14 @@ enum OpKind
     OP_COMPUTE = 3,   // compute(sel, maxit, tol, sort)
     OP_READ = 4,      // accessor reads
     OP_PROBE = 5,     // operator probe (harness side, does not go through the seam)
-    OP_SVDCOMPUTE = 6 // PartialSVDSolver::compute(maxit, tol)
+    OP_SVDCOMPUTE = 6, // PartialSVDSolver::compute(maxit, tol)
+    OP_KEXTEND = 7,    // direct Krylov driver: factorize_from(dim, maxit)   (maxit = target dimension)
+    OP_KRESTART = 8    // direct Krylov driver: implicit restart down to dimension maxit with shifts of mode sel, then re-extend
 };
 inline const char* opkind_name(int k)
 {
-    static const char* n[] = {"init", "init_v", "init_zero", "compute", "read", "probe", "svd_compute"};
-    return (k >= 0 && k < 7) ? n[k] : "?";
+    static const char* n[] = {"init", "init_v", "init_zero", "compute", "read", "probe", "svd_compute", "k_extend", "k_restart"};
+    return (k >= 0 && k < 9) ? n[k] : "?";
 }
 
 // accessor bits for OP_READ
@@ -155,6 +157,10 @@ struct Op
             j.set("sel", sel).set("maxit", maxit).set("tol", tol).set("sort", sort);
         if (kind == OP_SVDCOMPUTE)
             j.set("maxit", maxit).set("tol", tol);
+        if (kind == OP_KEXTEND)
+            j.set("maxit", maxit);
+        if (kind == OP_KRESTART)
+            j.set("maxit", maxit).set("sel", sel).set("vseed", (unsigned long long) vseed);
         if (kind == OP_INITV)
             j.set("vclass", vclass).set("vseed", (unsigned long long) vseed);
         if (kind == OP_READ)
@@ -172,7 +178,7 @@ struct Op
         Op o;
         std::string k = j.at("op").as_str();
         o.kind = -1;
-        for (int i = 0; i < 7; i++)
+        for (int i = 0; i < 9; i++)
             if (k == opkind_name(i)) o.kind = i;
         if (o.kind < 0) throw std::runtime_error("plan: unknown op " + k);
         o.sel = (int) j.geti("sel", R_LM);
